@@ -321,10 +321,27 @@ def lift_block(fb, it):
         # R5c: the first statement of the block must be the single-line `let NAME = EXPR;` and is dropped: NAME is a parameter of
         # the generated function (its defining expression stays outside the contract)
         blines = block.split('\n')
-        if len(blines) < 2 or not re.match(r'^\s*let ' + re.escape(bind) + r' = [^;]*;\s*$', blines[1]):
+        pat_b = re.compile(r'^\s*let ' + re.escape(bind) + r' = ([^;]*);\s*$')
+        q = 1
+        while q < len(blines) and not blines[q].strip():
+            q += 1
+        if q < len(blines) and not pat_b.match(blines[q]):
+            # (R5c, later position) the statement may follow other single-line `let`s of the block if its defining expression
+            # mentions none of the names they bind: it then evaluates to the same value before them
+            bound = set()
+            while q < len(blines) and not pat_b.match(blines[q]):
+                ml = re.match(r'^\s*let (?:mut )?(\w+)(?:: [^=]+)? = [^{}]*;\s*$', blines[q])
+                if not ml:
+                    break
+                bound.add(ml.group(1))
+                q += 1
+            mb = pat_b.match(blines[q]) if q < len(blines) else None
+            if mb and bound & set(re.findall(r'[A-Za-z_]\w*', mb.group(1))):
+                raise WeaveError(f'{fb.path}: bind={bind}: the defining expression depends on an earlier statement of the block')
+        if q >= len(blines) or not pat_b.match(blines[q]):
             raise WeaveError(f'{fb.path}: first statement of the lifted block is not `let {bind} = ..;`: '
-                             + (blines[1].strip() if len(blines) > 1 else '<eof>'))
-        blines[1] = ''
+                             + (blines[q].strip() if q < len(blines) else '<eof>'))
+        blines[q] = ''
         block = '\n'.join(blines)
     skip = int(fb.opts.get('skip', 0))
     if skip:
@@ -381,11 +398,13 @@ def weave_fn(sc, fb, reach=False):
     if fb.lift is not None:
         it, raw = lift_block(fb, it)
     rules = fb.opts.get('rules')
-    rules = rules.split(',') if rules else ['R0', 'R1', 'R7', 'R8', 'R2', 'R3', 'R9', 'R10', 'R11', 'R12', 'R13', 'R15', 'R16', 'R17', 'R18', 'R20', 'R21', 'R22', 'R23', 'R24', 'R25', 'R26', 'R27']
+    rules = rules.split(',') if rules else ['R0', 'R1', 'R7', 'R8', 'R2', 'R3', 'R9', 'R10', 'R11', 'R12', 'R13', 'R15', 'R16', 'R17', 'R18', 'R20', 'R21', 'R22', 'R23', 'R24', 'R25', 'R26', 'R27', 'R28', 'R29', 'R21b', 'R30']
     counts = {}
     try:
         # phase A: line-preserving token rewrites
-        text, c = desugar(raw, [r for r in rules if r in ('R0', 'R1', 'R7', 'R8')])
+        import desugar as _dz
+        _dz.set_opts(fb.opts)
+        text, c = desugar(raw, [r for r in rules if r in ('R0', 'R1', 'R7', 'R8', 'R28')])
         counts.update(c)
         if text.count('\n') != raw.count('\n'):
             raise WeaveError(f'internal: desugaring changed the line count of {fb.path}')
@@ -476,7 +495,7 @@ def weave_fn(sc, fb, reach=False):
             text, origin = apply_inserts(text, origin, inserts)
             # phase C: loop desugarings (line preserving)
             before = text.count('\n')
-            text, c = desugar(text, [r for r in rules if r in ('R2', 'R3', 'R9', 'R10', 'R11', 'R12', 'R13', 'R15', 'R16', 'R17', 'R18', 'R20', 'R21', 'R22', 'R23', 'R24', 'R25', 'R26', 'R27')])
+            text, c = desugar(text, [r for r in rules if r in ('R2', 'R3', 'R9', 'R10', 'R11', 'R12', 'R13', 'R15', 'R16', 'R17', 'R18', 'R20', 'R21', 'R22', 'R23', 'R24', 'R25', 'R26', 'R27', 'R29', 'R21b', 'R30')])
             counts.update(c)
             if text.count('\n') != before:
                 raise WeaveError(f'internal: desugaring changed the line count of {fb.path}')
